@@ -248,8 +248,11 @@ def run(ctx):  # noqa: C901, PLR0912, PLR0915
     from . import common
     # the type and scope lists that the filter compares are the items the peer sent (element content: any white space separates)
     common.element_text_lists_split_on_whitespace(ctx, 'C14.R6')
+    common.codec_keeps_no_state(ctx, 'C14.R2', 'sdc11073.pysoap.msgreader.MessageReader', 'message reader')
+    common.log_templates_are_constant(ctx, 'C14.R1', ['sdc11073.wsdiscovery'])   # a log call that raises ends the handling of a datagram
     # ------------------------------------------------------------------ R6
     ctx.ob('C14.R6', 'symmetric normalisation', ok6, why6, fi=ms, witness=wit)
+    common.no_mutation_while_iterating(ctx, 'C14.R3', ['sdc11073.wsdiscovery'])
 
     g = cfg_of(ms)
     sc = [n for n in g.nodes if n.kind == 'return' and ('match_by == MatchBy.strcmp', True) in g.facts_at(n)]
